@@ -85,7 +85,7 @@ def gen_case(rng, boundary=None):
     """one store-level case.  ops: ("E", k, t, a1, a2) / ("X", t, rv)"""
     with_args = rng.random() < 0.6
     cap = rng.choice([32, 48, 48, 64, 64, 80, 96, 128, 256, 4080])
-    nops = rng.randrange(2, 28)       # the first hook call sets the thread up (prepare_shmem_buffer): never the kill op
+    nops = rng.randrange(1, 28)       # (the first hook call also sets the thread up: prepare_shmem_buffer)
     ops, stack, t = [], [], 1000
     for _ in range(nops):
         t += rng.randrange(1, 50)
@@ -102,8 +102,6 @@ def gen_case(rng, boundary=None):
     mode = rng.choice(["kill", "kill", "kill", "kill", "segv", "abrt", "exit", "end"])
     if boundary:
         mode = boundary
-    if mode == "kill" and len(ops) < 2:
-        mode = "segv"          # the first hook call sets the thread up: it is never the kill op
     end, close = None, None
     x = rng.random()
     if boundary is None and x < 0.30 and not (stack and stack[-1] in NOTRACE):
@@ -317,6 +315,12 @@ def store_cases(ctx):
                           "e": 0 if mode == "kill" else None, "directed": "norecord-innermost"})
     cases += shrink_cases()
     cases += finish_cases()
+    # killed inside the thread's very first hook call (mcount_prepare -> prepare_shmem_buffer): before REC_START 0,
+    # after the buffer's flag is set, after the call
+    for e in (0, 1, 2):
+        for k, args in ((0, False), (1, True), (12, False)):
+            cases.append({"cap": 64, "args": args, "mode": "kill", "ops": [("E", k, 1010, 5, 6)], "sync": [False], "e": e,
+                          "end": None, "close": None, "directed": "first-hook-call"})
     for _ in range(ctx.n(70, 1200)):
         cases.append(gen_case(rng))
     return cases
@@ -878,16 +882,18 @@ def run_e2e(ctx, objdir):
             sh(["timeout", "20", exe, full, "-1", "-1", "9"], check=True, cwd=work)      # (-pg: gmon.out goes to cwd)
             logs = read_log(full, nth)
             most = max(len(l) for _, l in logs)
-            if (350 <= most <= 1000) if big else (6 <= most <= 300):
+            if (350 <= most <= 700) if big else (6 <= most <= 300):
                 break
         progs.append({"exe": exe, "nth": nth, "nf": nf, "ftab": func_table(exe, nf), "full": logs,
-                      "src": src, "id": pi})
+                      "src": src, "id": pi, "big": big})
     cases = []
     hows = ["sigkill", "segv", "abort", "_exit", "execv", "exit", "finish", "sigfinish"]
     per = ctx.n(16, 48)
     for pr in progs:
         for j in range(per):
             how = hows[j % len(hows)]
+            if how == "execv" and pr.get("big"):
+                how = "sigkill"         # (the two-image split check is quadratic in the number of records)
             th = rng.randrange(pr["nth"] + 1)
             total = len(pr["full"][th][1])
             if total == 0:
@@ -1136,8 +1142,7 @@ def common_meta(ctx):
     ctx.assume = [
         "shm allocation never fails and no record is lost (C03 covers LOST); no filters/triggers besides argument "
         "specs (C05); one thread per data file in the model (threads are exercised end to end only)",
-        "a record fits into an empty buffer (the code does not re-check after switching buffers); the thread's "
-        "set-up (prepare_shmem_buffer: two buffers, REC_START 0) is complete before the first modelled step",
+        "a record fits into an empty buffer (the code does not re-check after switching buffers)",
         "stores become visible to the recorder in program order (x86-TSO; the recorder reads after the tracee died)",
         "the kernel delivers POLLHUP / SIGCHLD and /proc/<tid>/stat eventually shows every dead task (oracle `dead`)",
         "kill instants are instruction boundaries observed through (size, RECORDING bit); instants inside one "
